@@ -21,12 +21,12 @@ def run(S):
     found = comments.explore_block(S, M, (0,), want=('C06',))
     found += comments.explore_line(S, M)
     comments.report(S, 'C06', found)
-    KL = 2 if S.tier == 'quick' else 3
-    KF = 3 if S.tier == 'quick' else 4
+    KL = 2 if S.tier == 'quick' else 4
+    KF = 3 if S.tier == 'quick' else 5
     f2 = flows.explore_flow(S, KF, want=('C06',))
     f2 += lists.explore(S, KL, want=('C06',))
     lists.report(S, 'C06', f2)
-    f4 = mathargs.explore(S, 3 if S.tier == 'quick' else 4, want=('C06',))
+    f4 = mathargs.explore(S, 3 if S.tier == 'quick' else 5, want=('C06',))
     mathargs.report(S, 'C06', f4)
     f5 = imports.explore(S, want=('C06',))
     imports.report(S, 'C06', f5)
